@@ -114,6 +114,8 @@ func (l *listener) listenLoop() {
 				conn := newStreamWrapper(stream, stream.LocalAddr(), stream.RemoteAddr(), wg)
 				select {
 				case <-l.closeCh:
+					// the conn will never be accepted, release its reference of the session
+					_ = conn.Close()
 					return
 				case l.backlog <- conn:
 				}
